@@ -489,7 +489,7 @@ func (m *Machine) AssertProp(c *sym.Term, label string) {
 		m.Trivial++
 		return
 	}
-	r := m.Z.Check(m.S, []*sym.Term{c}, []bool{true})
+	r := m.check([]*sym.Term{c}, []bool{true})
 	switch r {
 	case sym.Unsat:
 		m.Discharged++
